@@ -3,6 +3,7 @@ package checks
 import (
 	"fmt"
 	"os"
+	"strconv"
 	"strings"
 
 	"verif/mc/oracle"
@@ -19,19 +20,44 @@ func init() { Registry["C20"] = c20 }
 //	letq  let 'EXPR'
 //	sub   echo "<${arr[EXPR]}>"
 //	for   for ((i=0; i<EXPR; i++)); do n+=.; if [[ ${#n} -ge 6 ]]; then break; fi; done
+//	forc  for ((i=0; EXPR; i++)); do ...the same body...; done
+//
+// With HasV the variable v is set to the text V before (the value sweeps).
 type arCase struct {
 	Ctx  string `json:"ctx"`
 	Expr string `json:"expr"`
+	V    string `json:"v,omitempty"`
+	HasV bool   `json:"hasv,omitempty"`
 }
 
 var (
 	c20FullLeaves = []string{"0", "1", "2", "3", "7", "10", "010", "0x1F", "2#101", "16#ff", "36#z", "64#_", "08",
 		"x", "y", "e", "u", "arr[0]", "arr[1]"}
 	c20ParenLeaves   = []string{"(x)", "(7)"}
-	c20ReducedLeaves = []string{"0", "3", "x", "y", "e", "u", "arr[1]"}
-	c20MediumLeaves  = []string{"0", "1", "3", "010", "0x1F", "64#_", "08", "x", "y", "e", "u", "arr[0]", "arr[1]"}
+	c20ReducedLeaves = []string{"3", "x", "e", "u", "arr[1]"}
+	// one operator of (nearly) every precedence level, for cost 3
+	c20RepBinops  = []string{",", "=", "||", "&&", "|", "&", "==", "<", "<<", "-", "/", "**"}
+	c20RepPreOps  = []string{"!", "-", "++"}
+	c20RepPostOps = []string{"--"}
 	c20TinyLeaves    = []string{"2", "x", "y"}
-	c20Contexts      = []string{"exp", "cmd", "let", "letq", "sub", "for"}
+	c20TwoLeaves     = []string{"2", "x"}
+	c20Contexts      = []string{"exp", "cmd", "let", "letq", "sub", "for", "forc"}
+
+	// literal sweep: every "0"+s, s of <= 3 characters of the first alphabet
+	// (octal, hex, invalid digits), and every B#D with B of the list and D of
+	// <= 2 characters of the second alphabet
+	c20ZeroAlphabet  = []string{"0", "7", "8", "9", "x", "X", "a", "F", "g"}
+	c20Bases         = []string{"0", "1", "2", "8", "10", "16", "36", "37", "62", "63", "64", "65", "010", "0x10"}
+	c20DigitAlphabet = []string{"0", "1", "9", "a", "z", "A", "Z", "@", "_"}
+	c20PlainLits     = []string{"9223372036854775807", "9223372036854775808", "00000000000000000000001", "1_0", "1@", "7a"}
+
+	// value sweep: v holds one of these texts and is used in each of the
+	// expressions
+	c20Values = []string{"", " ", "7", " 7 ", "-7", "+7", "- 7", "010", "0x1F", "08", "2#101", "2#102", "3x", "1 2",
+		"x", "y", "u", "e", "v", "1+2", "x+1", "x*2+1", "(1+2)", "x=9", "x++", "++x", "arr[1]", "arr[x-4]",
+		"1/0", "2**-1", "1,2", "1?2:3", "x==5", "!x", "~x", "$x", "1+", "a b"}
+	c20ValueExprs = []string{"v", "-v", "!v", "v + 1", "v * 2", "2 * v", "2 ** v", "v ? 1 : 2", "0 && v", "x = v", "x += v", "(v)", "v , 1", "arr[v]"}
+	c20ValueCtxs  = []string{"exp", "cmd", "sub", "forc"}
 )
 
 const (
@@ -40,12 +66,14 @@ const (
 	c20Dump   = `"|$?|$x|$y|$e|${u-U}|${arr[*]}|${!arr[*]}|${i-U}|${n-U}"`
 	c20Init   = "5|-3|1+2|U|4 5 6|0 1 2|U|U" // the dump's variable part when nothing changed
 	// the same for bash: reset before, post after each case
-	c20Reset = "x=5; y=-3; e='1+2'; arr=(4 5 6); unset u i n; V=ERR"
-	c20Post  = `R="$V|$__st|$x|$y|$e|${u-U}|${arr[*]}|${!arr[*]}|${i-U}|${n-U}"`
+	c20Reset = "x=5; y=-3; e='1+2'; arr=(4 5 6); unset u i n v; V=ERR"
+	c20Post  = `R="$V|$__st|$x|$y|$e|${u-U}|${arr[*]}|${!arr[*]}|${i-U}|${n-U}|$__e"`
 	// the loop body always succeeds: a C-style loop of the interpreter stops
 	// after a body with non-zero status (seen while writing this check; that
 	// is C26's business, not C20's)
 	c20Loop = "do n+=.; if [[ ${#n} -ge 6 ]]; then break; fi; done"
+	// number of fields of an observation: value status x y e u arr idx i n errflag
+	c20NF = 11
 )
 
 // c20Text is the arithmetic text the shells see for a case.
@@ -76,7 +104,7 @@ func c20Line(ctx, text string) string {
 		return "let '" + text + "'"
 	case "sub":
 		return `echo "<${arr[` + text + `]}>"`
-	case "for":
+	case "for", "forc":
 		return "for ((i=0; " + text + "; i++)); " + c20Loop
 	}
 	panic("bad ctx")
@@ -84,19 +112,30 @@ func c20Line(ctx, text string) string {
 
 func c20BashCode(t arCase) string {
 	text := c20Text(t)
+	pre := ""
+	if t.HasV {
+		pre = "v=" + oracle.ShQuote(t.V) + "; "
+	}
 	switch t.Ctx {
 	case "exp":
-		return "printf -v V %s $(( " + text + " ))"
+		return pre + "printf -v V %s $(( " + text + " ))"
 	case "sub":
-		return `V="<${arr[` + text + `]}>"`
+		return pre + `V="<${arr[` + text + `]}>"`
 	}
-	return "V=; " + c20Line(t.Ctx, text)
+	return pre + "V=; " + c20Line(t.Ctx, text)
+}
+
+func c20Setup(setup string, t arCase) string {
+	if t.HasV {
+		return setup + "; v=" + oracle.ShQuote(t.V)
+	}
+	return setup
 }
 
 // arShRun is what the interpreter did with one program.
 type arShRun struct {
 	Kind   string // "" ran, "parse", "panic", "fatal"
-	R      string // "value|status|x|y|e|u|arr|idx|i|n" like the bash side's R (Kind "")
+	R      string // "value|status|x|y|e|u|arr|idx|i|n|errflag" like the bash side's R (Kind "")
 	Stderr string
 	Info   string // parse error / panic text
 	Stdout string
@@ -104,10 +143,11 @@ type arShRun struct {
 
 // c20RunSh runs the interpreter on setup + line + dump and formats what it
 // did like the bash side's R. For exp and sub the value is "ERR" when the
-// echo command was not run.
+// echo command was not run. The error flag is "E" when the interpreter wrote
+// a diagnostic.
 func c20RunSh(ctx, setup, text string) arShRun {
 	src := setup + "\n" + c20Line(ctx, text) + "\necho " + c20Dump + "\n"
-	res := oracle.RunInterp(src, oracle.InterpOpts{NoExec: true})
+	res := oracle.RunInterpNoStdin(src)
 	switch {
 	case res.Panicked:
 		return arShRun{Kind: "panic", Info: res.Fatal}
@@ -130,21 +170,88 @@ func c20RunSh(ctx, setup, text string) arShRun {
 	if (ctx == "exp" || ctx == "sub") && nl < 0 {
 		val = "ERR" // the echo was not run
 	}
-	return arShRun{R: val + dump, Stderr: res.Stderr}
+	flag := "-"
+	if res.Stderr != "" {
+		flag = "E"
+	}
+	return arShRun{R: val + dump + "|" + flag, Stderr: res.Stderr}
+}
+
+// c20RefRun asks the reference evaluator whether the case is outside the
+// property's quantifier (overflow / shift count reached before any error in
+// any evaluation the context performs). For $(( )) it also returns the
+// observation the reference predicts, which is compared with bash (never with
+// the interpreter) to validate the reference itself.
+func c20RefRun(t arCase) (outc arRefOutcome, predicted string) {
+	st := newArRefState()
+	if t.HasV {
+		st.vars["v"] = t.V
+	}
+	text := c20Text(t)
+	switch t.Ctx {
+	case "for", "forc":
+		st.vars["i"] = "0"
+		for n := 0; ; {
+			v, o, _ := arRefEval(st, text)
+			if o != arRefValue {
+				return o, ""
+			}
+			if v == 0 {
+				break
+			}
+			if n++; n >= 6 {
+				break
+			}
+			if _, o, _ := arRefEval(st, "i++"); o != arRefValue {
+				return o, ""
+			}
+		}
+		return arRefValue, ""
+	}
+	rv, o, _ := arRefEval(st, text)
+	if o != arRefValue || t.Ctx != "exp" || st.unpredicted {
+		return o, ""
+	}
+	a := func(k string) string { return st.vars[k] }
+	u := "U"
+	if v, ok := st.vars["u"]; ok {
+		u = v
+	}
+	for k := range st.vars {
+		if strings.HasPrefix(k, "arr[") && k != "arr[0]" && k != "arr[1]" && k != "arr[2]" {
+			return o, "" // an element outside 0..2 was created: not predicted
+		}
+	}
+	return o, fmt.Sprintf("%d|0|%s|%s|%s|%s|%s %s %s|0 1 2|U|U|-", rv, a("x"), a("y"), a("e"), u, a("arr[0]"), a("arr[1]"), a("arr[2]"))
+}
+
+func c20Key(t arCase) string {
+	if t.HasV {
+		return fmt.Sprintf("%s %q v=%q", t.Ctx, t.Expr, t.V)
+	}
+	return fmt.Sprintf("%s %q", t.Ctx, t.Expr)
+}
+
+func c20Show(t arCase) string {
+	line := c20Line(t.Ctx, c20Text(t))
+	if t.HasV {
+		return "v=" + oracle.ShQuote(t.V) + "; " + line
+	}
+	return line
 }
 
 func c20(c *vc.Ctx) {
 	quick := c.Quick()
-	c.Rule = fmt.Sprintf("arithmetic texts E := O | O binop E | O ? E : E, O := pre* A post?, A := leaf | ( E ) (every rendering of every expression tree, with and without grouping parentheses; text-level so each text occurs once; a redundant outermost pair of parentheses is left out); cost = number of operators (20 binary, 11 assignment, ?:, 6 prefix incl. ++/--, 2 postfix); leaves full=%q (+%q for cost<=1), reduced=%q, medium=%q, tiny=%q. Enumerated: cost<=1 over the full leaves in all six contexts %q (`let` unquoted only for texts without shell metacharacters); all of cost 2 over %s in $(( )); %s. State x=5 y=-3 e='1+2' u unset arr=(4 5 6). Excluded (counted) by a big-integer reference evaluator: signed 64-bit overflow or shift count outside 0..63 reached before any error. distinct = distinct (value, status, variable state) outcomes of the interpreter",
-		c20FullLeaves, c20ParenLeaves, c20ReducedLeaves, c20MediumLeaves, c20TinyLeaves, c20Contexts,
-		vc.Pick(c, "the reduced leaves", "the medium leaves"), vc.Pick(c, "cost 3 not enumerated", "all of cost 3 over the tiny leaves in $(( ))"))
+	c.Rule = fmt.Sprintf("arithmetic texts E := O | O binop E | O ? E : E, O := pre* A post?, A := leaf | ( E ) (every rendering of every expression tree, with and without grouping parentheses; text-level so each text occurs once; a redundant outermost pair of parentheses is left out); cost = number of operators (20 binary, 11 assignment, ?:, 6 prefix incl. ++/--, 2 postfix); leaves full=%q (+%q for cost<=1), reduced=%q, tiny=%q. Enumerated: (1) cost<=1 over the full leaves in all seven contexts %q (`let` unquoted only for texts without shell metacharacters); (2) all of cost 2 over %s in $(( )); (3) %s; (4) literal sweep in $(( )), as the text itself and as the value of a variable: \"0\"+s for every s of <=3 characters of %q, B#D for B in %q and every D of <=2 characters of %q, and %q; (5) value sweep: v holding each of %q, used in each of %q in contexts %q. State x=5 y=-3 e='1+2' u unset arr=(4 5 6). Excluded (counted) by a big-integer reference evaluator: signed 64-bit overflow or shift count outside 0..63 reached before any error. distinct = distinct (value, status, variable state) outcomes of the interpreter",
+		c20FullLeaves, c20ParenLeaves, c20ReducedLeaves, c20TinyLeaves, c20Contexts,
+		vc.Pick(c, "the tiny leaves", "the reduced leaves"), vc.Pick(c, "cost 3 not enumerated", fmt.Sprintf("all of cost 3 over the leaves 2 and x in $(( )) with the operators restricted to one of (nearly) every precedence level: binary %q, prefix %q, postfix %q", c20RepBinops, c20RepPreOps, c20RepPostOps)),
+		c20ZeroAlphabet, c20Bases, c20DigitAlphabet, c20PlainLits, c20Values, c20ValueExprs, c20ValueCtxs)
 	c.Assumptions = []string{
-		"bash 5.2.15 is the oracle; compared are the printed value (or that no value was produced = error), $? after the command, and x y e u arr (values and indices) i n afterwards; error message texts are not compared",
+		"bash 5.2.15 is the oracle; compared are the printed value (or that no value was produced = error), $? after the command, whether a diagnostic was written (this tells an error from a zero value in (( )) and let), and x y e u arr (values and indices) i n afterwards; error message texts are not compared",
 		"a program the interpreter rejects at parse time counts as an error; bash must then report an error for the same text, but side effects bash performs before reaching the syntax error are not compared",
-		"the reference evaluator is used only to exclude overflow / out-of-range shift cases, never as an oracle",
+		"the reference evaluator is used only to exclude overflow / out-of-range shift cases, never as an oracle; it is itself compared with bash on every $(( )) case it does not exclude (ref_checked), a disagreement is reported as a failure of the case",
 	}
 	c.Reruns = 1
-	refcheck := os.Getenv("VERIF_C20_REFCHECK") != "" // development aid: compare the reference evaluator (not sh) with bash
 
 	gen := func(emit func(arCase)) {
 		full1 := newArGen(append(append([]string{}, c20FullLeaves...), c20ParenLeaves...))
@@ -154,65 +261,64 @@ func c20(c *vc.Ctx) {
 					if ctx == "let" && !c20LetWordOK(compactArith(s)) {
 						continue
 					}
-					emit(arCase{ctx, s})
+					emit(arCase{Ctx: ctx, Expr: s})
 				}
 			})
 		}
-		g2 := newArGen(vc.Pick(c, c20ReducedLeaves, c20MediumLeaves))
-		g2.each(2, true, func(s string) { emit(arCase{"exp", s}) })
+		for _, l := range c20Literals() {
+			emit(arCase{Ctx: "exp", Expr: l})
+			emit(arCase{Ctx: "exp", Expr: "v", V: l, HasV: true})
+		}
+		for _, v := range c20Values {
+			for _, e := range c20ValueExprs {
+				for _, ctx := range c20ValueCtxs {
+					emit(arCase{Ctx: ctx, Expr: e, V: v, HasV: true})
+				}
+			}
+		}
+		g2 := newArGen(vc.Pick(c, c20TinyLeaves, c20ReducedLeaves))
+		g2.each(2, true, func(s string) { emit(arCase{Ctx: "exp", Expr: s}) })
 		if !quick {
-			g3 := newArGen(c20TinyLeaves)
-			g3.each(3, true, func(s string) { emit(arCase{"exp", s}) })
+			g3 := newArGen(c20TwoLeaves)
+			g3.binops, g3.pre, g3.post = c20RepBinops, c20RepPreOps, c20RepPostOps
+			g3.each(3, true, func(s string) { emit(arCase{Ctx: "exp", Expr: s}) })
 		}
 	}
 
+	countOnly := os.Getenv("VERIF_C20_COUNT") != "" // development aid: size of the space per sweep
 	run := func(batch []arCase) []*vc.Fail {
 		fails := make([]*vc.Fail, len(batch))
+		if countOnly {
+			for _, t := range batch {
+				c.Count(fmt.Sprintf("n_%s_cost%d_v%v", t.Ctx, strings.Count(t.Expr, " ")/2, t.HasV), 1)
+			}
+			return fails
+		}
 		var cases []oracle.EvalCase
 		var idx []int
 		var runs []arShRun
+		var preds []string
+		var outcs []arRefOutcome
 		for i, t := range batch {
 			// exclusion by the reference evaluator
-			st := newArRefState()
-			if t.Ctx == "for" {
-				st.vars["i"] = "0"
-			}
-			rv, outc, _ := arRefEval(st, c20Text(t))
+			outc, pred := c20RefRun(t)
 			if outc == arRefExcluded {
 				c.Count("excluded_overflow_or_shift", 1)
 				continue
 			}
-			if refcheck {
-				if t.Ctx == "exp" {
-					a := func(k string) string { return st.vars[k] }
-					u := "U"
-					if v, ok := st.vars["u"]; ok {
-						u = v
-					}
-					want := fmt.Sprintf("%d|0|%s|%s|%s|%s|%s %s %s|0 1 2|U|U", rv, a("x"), a("y"), a("e"), u, a("arr[0]"), a("arr[1]"), a("arr[2]"))
-					if outc == arRefError {
-						want = "ERR|1|*"
-					}
-					cases = append(cases, oracle.EvalCase{Code: c20BashCode(t), Want: want})
-					idx = append(idx, i)
-					runs = append(runs, arShRun{Kind: "ref"})
-				}
-				continue
-			}
-			r := c20RunSh(t.Ctx, c20SetupE, c20Text(t))
-			key := fmt.Sprintf("%s %q", t.Ctx, t.Expr)
+			r := c20RunSh(t.Ctx, c20Setup(c20SetupE, t), c20Text(t))
+			key := c20Key(t)
 			switch r.Kind {
 			case "panic":
-				fails[i] = &vc.Fail{Key: key + " panic", Class: c20PanicClass(t, r.Info), Msg: fmt.Sprintf("%s: interpreter panicked on %q: %s", t.Ctx, c20Line(t.Ctx, c20Text(t)), firstLine(r.Info)), Detail: r.Info}
+				fails[i] = &vc.Fail{Key: key + " panic", Msg: fmt.Sprintf("%s: interpreter panicked on %q: %s", t.Ctx, c20Show(t), firstLine(r.Info)), Detail: r.Info}
 				continue
 			case "fatal":
-				fails[i] = &vc.Fail{Key: key + " fatal", Msg: fmt.Sprintf("%s: interpreter failed on %q: %s (stdout %q)", t.Ctx, c20Line(t.Ctx, c20Text(t)), r.Info, r.Stdout)}
+				fails[i] = &vc.Fail{Key: key + " fatal", Msg: fmt.Sprintf("%s: interpreter failed on %q: %s (stdout %q)", t.Ctx, c20Show(t), r.Info, r.Stdout)}
 				continue
 			case "parse":
-				// bash must report an error too; ask for the value in $(( ))
-				// form, where an error is distinguishable from a zero value
+				// bash must report an error too
 				c.Count("sh_parse_error", 1)
-				cases = append(cases, oracle.EvalCase{Code: "printf -v V %s $(( " + c20Text(t) + " ))", Want: "PARSE"})
+				cases = append(cases, oracle.EvalCase{Code: c20BashCode(t), Want: "PARSE"})
 			default:
 				c.Distinct(r.R)
 				if outc == arRefValue && strings.Count(t.Expr, " ") >= 4 {
@@ -222,33 +328,61 @@ func c20(c *vc.Ctx) {
 			}
 			idx = append(idx, i)
 			runs = append(runs, r)
+			preds = append(preds, pred)
+			outcs = append(outcs, outc)
 		}
 		diffs, err := oracle.BashTopBatch("set -f", c20Reset, c20Post, cases, "")
 		if err != nil {
 			panic(err)
 		}
+		bashR := make([]string, len(cases))
+		for j := range cases {
+			bashR[j] = cases[j].Want
+		}
 		for _, d := range diffs {
-			i := idx[d.Index]
+			bashR[d.Index] = d.Got
+		}
+		for j := range cases {
+			i := idx[j]
 			t := batch[i]
-			r := runs[d.Index]
-			key := fmt.Sprintf("%s %q", t.Ctx, t.Expr)
-			line := c20Line(t.Ctx, c20Text(t))
-			switch r.Kind {
-			case "ref":
-				want := cases[d.Index].Want
-				if strings.HasSuffix(want, "*") && strings.HasPrefix(d.Got, strings.TrimSuffix(want, "*")) {
-					continue
+			r := runs[j]
+			bf := c20Fields(bashR[j])
+			if len(bf) != c20NF {
+				fails[i] = &vc.Fail{Key: c20Key(t) + " harness", Msg: fmt.Sprintf("%s: %q: unexpected observation from bash: %q", t.Ctx, c20Show(t), bashR[j])}
+				continue
+			}
+			// validate the reference evaluator against bash
+			if t.Ctx == "exp" {
+				switch {
+				case outcs[j] == arRefValue && preds[j] != "":
+					c.Count("ref_checked", 1)
+					if preds[j] != bashR[j] {
+						fails[i] = &vc.Fail{Key: c20Key(t) + " ref", Msg: fmt.Sprintf("REFERENCE evaluator disagrees with bash on %q: ref %s, bash %s", c20Show(t), preds[j], bashR[j])}
+						continue
+					}
+				case outcs[j] == arRefError:
+					c.Count("ref_checked", 1)
+					if bf[0] != "ERR" || bf[10] != "E" {
+						fails[i] = &vc.Fail{Key: c20Key(t) + " ref", Msg: fmt.Sprintf("REFERENCE evaluator disagrees with bash on %q: ref error, bash %s", c20Show(t), bashR[j])}
+						continue
+					}
 				}
-				fails[i] = &vc.Fail{Key: key + " ref", Msg: fmt.Sprintf("REFCHECK %q: ref %s, bash %s", t.Expr, want, d.Got)}
-			case "parse":
-				if strings.HasPrefix(d.Got, "ERR|1|") {
+			}
+			if bf[10] == "E" {
+				c.Count("bash_reports_error", 1)
+			}
+			switch {
+			case r.Kind == "parse":
+				if bf[10] == "E" {
 					continue // error in both
 				}
-				fails[i] = &vc.Fail{Key: key + " sh=parse-error", Class: c20Class(t, r, d.Got),
-					Msg: fmt.Sprintf("%s: %q is rejected by the parser (%s) but bash evaluates %q to %s", t.Ctx, line, oneLineErr(r.Info), c20Text(t), d.Got)}
-			default:
-				fails[i] = &vc.Fail{Key: key + " sh=" + r.R, Class: c20Class(t, r, d.Got),
-					Msg: fmt.Sprintf("%s: %q gives value|status|x|y|e|u|arr|idx|i|n = %s, bash %s", t.Ctx, line, r.R, d.Got)}
+				cl, why := c20Classify(t, r, bf)
+				fails[i] = &vc.Fail{Key: c20Key(t) + " sh=parse-error", Class: cl,
+					Msg: fmt.Sprintf("%s: %q is rejected by the parser (%s) but bash gives value|status|x|y|e|u|arr|idx|i|n|err = %s%s", t.Ctx, c20Show(t), oneLineErr(r.Info), bashR[j], why)}
+			case r.R != bashR[j]:
+				cl, why := c20Classify(t, r, bf)
+				fails[i] = &vc.Fail{Key: c20Key(t) + " sh=" + r.R, Class: cl,
+					Msg: fmt.Sprintf("%s: %q gives value|status|x|y|e|u|arr|idx|i|n|err = %s, bash %s%s", t.Ctx, c20Show(t), r.R, bashR[j], why)}
 			}
 		}
 		return fails
@@ -256,6 +390,50 @@ func c20(c *vc.Ctx) {
 
 	complete := vc.RunBatch(c, 1500, gen, run)
 	c.Finish(complete)
+}
+
+// c20Literals is the literal sweep.
+func c20Literals() []string {
+	var out []string
+	var rec func(prefix string, alphabet []string, n int)
+	rec = func(prefix string, alphabet []string, n int) {
+		out = append(out, prefix)
+		if n == 0 {
+			return
+		}
+		for _, a := range alphabet {
+			rec(prefix+a, alphabet, n-1)
+		}
+	}
+	rec("0", c20ZeroAlphabet, 3)
+	for _, b := range c20Bases {
+		rec(b+"#", c20DigitAlphabet, 2)
+	}
+	out = append(out, c20PlainLits...)
+	for i := 0; i <= 66; i++ { // every base with one valid and one invalid digit
+		out = append(out, strconv.Itoa(i)+"#1", strconv.Itoa(i)+"#"+string(c20DigitOf(i-1)), strconv.Itoa(i)+"#"+string(c20DigitOf(i)))
+	}
+	seen := map[string]bool{}
+	uniq := out[:0]
+	for _, l := range out {
+		if !seen[l] {
+			seen[l] = true
+			uniq = append(uniq, l)
+		}
+	}
+	return uniq
+}
+
+// c20DigitOf is bash's digit character for value d in bases > 36 (0-9 a-z A-Z @ _).
+func c20DigitOf(d int) byte {
+	const digits = "0123456789abcdefghijklmnopqrstuvwxyzABCDEFGHIJKLMNOPQRSTUVWXYZ@_"
+	if d < 0 {
+		return '0'
+	}
+	if d >= len(digits) {
+		return '_'
+	}
+	return digits[d]
 }
 
 func oneLineErr(s string) string { return strings.ReplaceAll(s, "\n", " ") }
